@@ -153,7 +153,10 @@ sexp sexp_make_random_source (sexp ctx, sexp self, sexp_sint_t n) {
   sexp_gc_preserve1(ctx, state);
   state = sexp_make_bytes(ctx, STATE_SIZE, SEXP_UNDEF);
   res = sexp_alloc_tagged(ctx, sexp_sizeof_random, sexp_unbox_fixnum(sexp_opcode_return_type(self)));
-  if (sexp_exceptionp(res)) return res;
+  if (sexp_exceptionp(res)) {
+    sexp_gc_release1(ctx);
+    return res;
+  }
   sexp_random_state(res) = state;
   sexp_random_init(res, 1);
   sexp_gc_release1(ctx);
@@ -212,8 +215,10 @@ sexp sexp_init_library (sexp ctx, sexp self, sexp_sint_t n, sexp env, const char
                           ONE, ONE, ZERO, ZERO,
                           sexp_make_fixnum(sexp_sizeof_random), ZERO,
                           ZERO, ZERO, ZERO, ZERO, ZERO, ZERO, NULL, NULL, NULL);
-  if (sexp_exceptionp(op))
+  if (sexp_exceptionp(op)) {
+    sexp_gc_release3(ctx);
     return op;
+  }
   rs_type_id = sexp_type_tag(op);
 
   name = sexp_c_string(ctx, "random-source?", -1);
